@@ -18,6 +18,7 @@ pub mod dirty;
 pub mod p05_p16_dirty;
 pub mod p06_atomicity;
 pub mod p07_nocrash;
+pub mod p08_sched;
 pub mod p09_bitmap;
 pub mod p10_maps;
 pub mod p13_io_twins;
@@ -41,6 +42,7 @@ pub fn properties() -> Vec<Property> {
         p05_p16_dirty::property_c05(),
         p06_atomicity::property(),
         p07_nocrash::property(),
+        p08_sched::property(),
         p09_bitmap::property(),
         p10_maps::property(),
         p11_atomic::property(),
